@@ -377,6 +377,27 @@ fn run_body(sess: &mut Session, state: &mut St, in_hold: bool) -> Option<(Value,
                     return None;
                 }
             }
+            "inner" => {
+                // with_inner_state: the closure inserts t := v into the child scope, checks what it sees, returns Ok / Err
+                let t = a["t"].as_str().unwrap().to_string();
+                let v = a["v"].as_u64().unwrap() as u32;
+                let fail = a["f"].as_str().unwrap() == "fail";
+                let mut seen_inside = NOVAL;
+                let result = crate::util::caught(std::panic::AssertUnwindSafe(|| {
+                    with_type!(t.as_str(), T => state.with_inner_state(|inner| {
+                        inner.insert(T::from(v));
+                        seen_inside = inner.try_get_value::<T>().map(|x| x as i64).unwrap_or(NOVAL);
+                        if fail { Err(eyre::eyre!("inner run failed")) } else { Ok(()) }
+                    }).map(|child| with_type!(t.as_str(), U => child.try_get_value::<U>().map(|x| x as i64).unwrap_or(NOVAL))))
+                }));
+                let res = match result {
+                    Err(_) => r("panic", NOVAL, nt),
+                    Ok(Err(_)) => r("err", seen_inside, nt),
+                    // the returned child holds what the closure inserted, and the closure saw it
+                    Ok(Ok(child_v)) => r("ok", if child_v == seen_inside { child_v } else { NOVAL }, nt),
+                };
+                sess.emit(state, &a, res);
+            }
             "hold_write" if !in_hold => sess.emit(state, &a, r("not_holding", NOVAL, nt)),
             "hold_exit" if !in_hold => sess.emit(state, &a, r("not_holding", NOVAL, nt)),
             "hold_write" => {
@@ -473,7 +494,8 @@ impl Source for RandomSrc {
                 let vs: Vec<u32> = ts.iter().map(|_| rng.gen_range(0..self.nvals)).collect();
                 bact("multi", "-", NOVAL, NOVAL, 0, f, json!(ts), json!(vs))
             }
-            45..=56 if info.held < self.maxhold => bact("hold_enter", t, NOVAL, NOVAL, 0, "-", e.clone(), e),
+            45..=53 if info.held < self.maxhold => bact("hold_enter", t, NOVAL, NOVAL, 0, "-", e.clone(), e),
+            54..=56 => bact("inner", t, v, NOVAL, 0, if rng.gen_bool(0.5) { "ok" } else { "fail" }, e.clone(), e),
             57..=63 if info.held > 0 => bact("hold_write", "-", v, NOVAL, 0, "-", e.clone(), e),
             64..=75 if info.held > 0 => {
                 bact("hold_exit", "-", NOVAL, NOVAL, 0, if rng.gen_bool(0.5) { "ok" } else { "fail" }, e.clone(), e)
